@@ -143,11 +143,16 @@ def run(ctx):
             futs = [ex.submit(run_case, exe, base, i, c) for i, c in enumerate(cs)]
             results = [f.result() for f in futs]
         # a case that timed out under load is re-run alone before it is called a hang
+        # (at most 12 of them: when re-runs keep hanging the remaining ones are reported as they are)
+        reruns = confirmed_hangs = 0
         for i, (c, verdict, detail, got) in enumerate(results):
-            if verdict == "hang":
+            if verdict == "hang" and (reruns < 12 and confirmed_hangs < 3):
+                reruns += 1
                 ctx.add("children_rerun_alone")
                 ctx.notes.setdefault("rerun_alone", []).append(" ".join("--%s %s" % kv for kv in sorted(c.items())) + " :: " + detail[:200])
                 results[i] = run_case(exe, base, 100000 + i, c)
+                if results[i][1] == "hang":
+                    confirmed_hangs += 1
         if True:
             for c, verdict, detail, got in results:
                 ctx.add("evaluations")
